@@ -265,9 +265,7 @@ def heapOk (keys : List Int) : Bool := sortsCheck keys (heapSortIdx keys)
 
 /-- `(global[node], node)` for the valid slots in slot order (`each_ref_node_valid_node`) -/
 def livePairs (s : NodeIds) : List (Int × Nat) :=
-  (List.range s.max).filterMap fun v =>
-    let g := s.global.getD v (-1)
-    if g ≥ 0 then some (g, v) else none
+  s.global.zipIdx.filter fun gv => decide (gv.1 ≥ 0)
 
 /-- `ref_node_rebuild_sorted_global` -/
 def rebuild (s : NodeIds) : NodeIds :=
@@ -306,22 +304,34 @@ def addMany (s : NodeIds) (orig : List Int) : Status × NodeIds :=
 
 /-! ### compact / pack -/
 
+/-- the `o2n` pass of the compact functions: slots satisfying `sel` are numbered consecutively from `k`,
+    every other slot keeps the value it has in `base` -/
+def numberSlots (sel : Int → Int → Bool) : List (Int × Int) → List Int → Nat → List Int
+  | [], _, _ => []
+  | (g, p) :: rest, b :: base, k =>
+    if sel g p then (k : Int) :: numberSlots sel rest base (k + 1) else b :: numberSlots sel rest base k
+  | _ :: rest, [], k => numberSlots sel rest [] k
+
+/-- the slots (ascending) with `sel global part` -/
+def selectSlots (s : NodeIds) (sel : Int → Int → Bool) : List Nat :=
+  ((s.global.zip s.part).zipIdx.filter fun gp => sel gp.1.1 gp.1.2).map (·.2)
+
 /-- `ref_node_stable_compact` : `(o2n[0..max), n2o[0..n))` -/
 def stableCompact (s : NodeIds) : Status × List Int × List Int :=
-  let n2o := (List.range s.max).filter fun v => s.liveAt v
+  let n2o := s.selectSlots fun g _ => decide (g ≥ 0)
   if n2o.length ≠ s.n then (.failure, [], []) else
-  let o2n := (List.range s.max).map fun v =>
-    if s.liveAt v then ((n2o.idxOf v : Nat) : Int) else -1
+  let o2n := numberSlots (fun g _ => decide (g ≥ 0)) (s.global.zip s.part) (List.replicate s.max (-1)) 0
   (.ok, o2n, n2o.map fun (v : Nat) => (v : Int))
 
 /-- `ref_node_compact` : owned (`part == rank`) first, then ghosts -/
 def compact (s : NodeIds) (rank : Int) : Status × List Int × List Int :=
-  let own := (List.range s.max).filter fun v => s.liveAt v && s.part.getD v 0 == rank
-  let ghost := (List.range s.max).filter fun v => s.liveAt v && s.part.getD v 0 != rank
+  let own := s.selectSlots fun g p => decide (g ≥ 0) && p == rank
+  let ghost := s.selectSlots fun g p => decide (g ≥ 0) && p != rank
   let n2o := own ++ ghost
   if n2o.length ≠ s.n then (.failure, [], []) else
-  let o2n := (List.range s.max).map fun v =>
-    if s.liveAt v then ((n2o.idxOf v : Nat) : Int) else -1
+  let gp := s.global.zip s.part
+  let o2n := numberSlots (fun g p => decide (g ≥ 0) && p == rank) gp (List.replicate s.max (-1)) 0
+  let o2n := numberSlots (fun g p => decide (g ≥ 0) && p != rank) gp o2n own.length
   (.ok, o2n, n2o.map fun (v : Nat) => (v : Int))
 
 /-- `ref_node_pack(ref_node, o2n, n2o)` (slots renumbered; `sorted_global` untouched) -/
